@@ -4,6 +4,7 @@
 
 mod common;
 mod explore;
+mod fibexgen;
 mod inputs;
 mod p01_roundtrip;
 mod p02_refcodec;
@@ -15,6 +16,8 @@ mod p07_reader;
 mod p08_stream;
 mod p09_filter;
 mod p10_stats;
+mod p11_fibex;
+mod p12_fibexfault;
 mod p13_construct;
 mod p15_lengths;
 mod p14_codes;
@@ -68,6 +71,11 @@ fn main() {
                 replay = Some(v);
                 i += 1;
             }
+            "--worker" => {
+                if prop == "C12" {
+                    p12_fibexfault::worker_main();
+                }
+            }
             other => rest.push(other.to_string()),
         }
         i += 1;
@@ -91,6 +99,8 @@ fn main() {
             "C09" => p09_filter::run(&ctx),
             "C15" => p15_lengths::run(&ctx),
             "C10" => p10_stats::run(&ctx),
+            "C11" => p11_fibex::run(&ctx),
+            "C12" => p12_fibexfault::run(&ctx),
             "C13" => p13_construct::run(&ctx),
             "C14" => p14_codes::run(&ctx),
             "C19" => p19_zstring::run(&ctx),
